@@ -697,3 +697,113 @@ func TestReplay_Massive(t *testing.T) {
 	}
 	t.Logf("REPLAY-OK massive mode")
 }
+
+// TestReplay_ErrorTexts: the text of a verification error is specVerifyText of its lists; a format error names the row.
+func TestReplay_ErrorTexts(t *testing.T) {
+	lists := [][]string{nil, {}, {"t/a"}, {"t/a", "t/a/b"}, {"x", "y", "z"}}
+	for _, strict := range []bool{false, true} {
+		for _, extra := range lists {
+			for _, missing := range lists {
+				got := verifyError{strict: strict, extra: extra, noExists: missing}.Error()
+				if want := specVerifyText(strict, extra, missing); got != want {
+					t.Fatalf("REPLAY-FAIL gtree.verifyError.Error/post#text input: strict=%v extra=%q noExists=%q: Error() = %q, specified %q", strict, extra, missing, got, want)
+				}
+			}
+		}
+	}
+	for _, doc := range []struct{ text, row string }{
+		{"- a\n  - b\n      - c\n", "      - c"},
+		{"- a\n  b\n", "  b"},
+		{"- a\n   - b\n  - c\n", "  - c"},
+	} {
+		for name, run := range map[string]func() error{
+			"iterator": func() error { return OutputFromMarkdown(&bytes.Buffer{}, strings.NewReader(doc.text)) },
+			"plain": func() error {
+				return OutputFromMarkdown(&bytes.Buffer{}, strings.NewReader(doc.text), WithNoUseIterOfSimpleOutput())
+			},
+			"walk": func() error { return WalkFromMarkdown(strings.NewReader(doc.text), func(*WalkerNode) error { return nil }) },
+		} {
+			err := run()
+			if err == nil || err.Error() != "incorrect input format: "+doc.row {
+				t.Fatalf("REPLAY-FAIL gtree.inputFormatError.Error/post#text input: document %q (%s route): error %v, expected the format error naming row %q", doc.text, name, err, doc.row)
+			}
+		}
+	}
+	t.Logf("REPLAY-OK error texts")
+}
+
+// TestReplay_WalkStops: a callback that fails at its k-th call is not called again and its error is returned unchanged
+// (From-Root for every small tree, From-Markdown for forests of several roots).
+func TestReplay_WalkStops(t *testing.T) {
+	boom := errors.New("callback failed")
+	n := 0
+	replayTrees(5, []string{"a", "b"}, func(root *Node, all []*Node, desc string) {
+		for k := 1; k <= len(all); k++ {
+			calls := 0
+			err := WalkFromRoot(root, func(*WalkerNode) error {
+				calls++
+				if calls == k {
+					return boom
+				}
+				return nil
+			})
+			n++
+			if calls != k || err != boom {
+				t.Fatalf("REPLAY-FAIL gtree.defaultWalkerSimple.walkNode/post#nomore input: WalkFromRoot on %s, callback failing at call %d: %d calls, returned %v", desc, k, calls, err)
+			}
+		}
+	})
+	doc := "- a\n  - b\n  - c\n- d\n  - e\n- f\n"
+	for k := 1; k <= 6; k++ {
+		calls := 0
+		err := WalkFromMarkdown(strings.NewReader(doc), func(*WalkerNode) error {
+			calls++
+			if calls == k {
+				return boom
+			}
+			return nil
+		})
+		if calls != k || err != boom {
+			t.Fatalf("REPLAY-FAIL gtree.treeSimple.walk/post#nomore input: WalkFromMarkdown on %q, callback failing at call %d: %d calls, returned %v", doc, k, calls, err)
+		}
+	}
+	t.Logf("REPLAY-OK walk stops: %d runs", n)
+}
+
+// TestReplay_MassiveStages: the stages of the massive mode that came under contract last: encoders are constructed, the walk
+// stage survives the end of its input, the splitter neither swallows a reader failure before the first root nor drops
+// what precedes the first root.
+func TestReplay_MassiveStages(t *testing.T) {
+	ctx := context.Background()
+	doc := "- a\n  - b\n"
+	for name, opts := range map[string][]Option{
+		"gtree.newTreeSimple/post#tree (json)":       {WithEncodeJSON()},
+		"gtree.newTreeSimple/post#tree (yaml)":       {WithEncodeYAML()},
+		"gtree.newTreeSimple/post#tree (toml)":       {WithEncodeTOML()},
+		"gtree.newTreePipeline/post#pipeline (json)": {WithMassive(ctx), WithEncodeJSON()},
+		"gtree.newTreePipeline/post#pipeline (yaml)": {WithMassive(ctx), WithEncodeYAML()},
+		"gtree.newTreePipeline/post#pipeline (toml)": {WithMassive(ctx), WithEncodeTOML()},
+	} {
+		var out bytes.Buffer
+		if err := OutputFromMarkdown(&out, strings.NewReader(doc), opts...); err != nil || out.Len() == 0 {
+			t.Fatalf("REPLAY-FAIL %s input: document %q: err=%v, %d bytes", name, doc, err, out.Len())
+		}
+	}
+	seen := 0
+	if err := WalkFromMarkdown(strings.NewReader(doc), func(*WalkerNode) error { seen++; return nil }, WithMassive(ctx)); err != nil || seen != 2 {
+		t.Fatalf("REPLAY-FAIL gtree.defaultWalkerPipeline.worker/call#gtree.defaultWalkerSimple.walkNode/pre#nn input: massive WalkFromMarkdown on %q: err=%v, %d callbacks", doc, err, seen)
+	}
+	boom := errors.New("reader broke")
+	for _, prefix := range []string{"", "\n", "  \n\n"} {
+		if err := OutputFromMarkdown(&bytes.Buffer{}, &replayFailReader{data: []byte(prefix), err: boom}, WithMassive(ctx)); !errors.Is(err, boom) {
+			t.Fatalf("REPLAY-FAIL gtree.split#1/post#reported input: massive mode, reader failing after %q: returned %v", prefix, err)
+		}
+	}
+	if err := OutputFromMarkdown(&bytes.Buffer{}, strings.NewReader("  - orphan\n- a\n  - b\n"), WithMassive(ctx)); err == nil {
+		t.Fatalf("REPLAY-FAIL gtree.split#1/post#all input: massive mode, an item before the first root: returned nil")
+	}
+	if err := OutputFromMarkdown(&replayFailWriter{okWrites: 0}, strings.NewReader(doc), WithMassive(ctx), WithEncodeYAML()); err == nil {
+		t.Fatalf("REPLAY-FAIL gtree.treePipeline.handlePipelineErr/post#seen input: massive YAML output, writer refusing every write: returned nil")
+	}
+	t.Logf("REPLAY-OK massive stages")
+}
